@@ -203,7 +203,7 @@ package szse_bin
 //@     seg fixed(OrderId, 16, 32, R)
 
 //@ layout ExecutionConfirm [proto szse_bin_v1.29, BE]
-//@   dyn ApplExtend by ApplId in executionConfirmApplIdFactoryCache
+//@   dyn ApplExtend by ApplId in executionConfirmApplIdFactoryCache fills
 //@   path ApplExtend == nil
 //@     seg encw(BE, 4, (PartitionNo % pow2(32)))
 //@     seg encw(BE, 8, (ReportIndex % pow2(64)))
@@ -266,7 +266,7 @@ package szse_bin
 //@     seg Wd(ApplExtend.tag, ApplExtend.mv)
 
 //@ layout ExecutionReport [proto szse_bin_v1.29, BE]
-//@   dyn ApplExtend by ApplId in executionReportApplIdFactoryCache
+//@   dyn ApplExtend by ApplId in executionReportApplIdFactoryCache fills
 //@   path ApplExtend == nil
 //@     seg encw(BE, 4, (PartitionNo % pow2(32)))
 //@     seg encw(BE, 8, (ReportIndex % pow2(64)))
@@ -693,7 +693,7 @@ package szse_bin
 //@     seg fixed(Text, 200, 32, R)
 
 //@ layout NewOrder [proto szse_bin_v1.29, BE]
-//@   dyn ApplExtend by ApplId in newOrderApplIdFactoryCache
+//@   dyn ApplExtend by ApplId in newOrderApplIdFactoryCache fills
 //@   path ApplExtend == nil
 //@     seg fixed(ApplId, 3, 32, R)
 //@     seg fixed(SubmittingPbuid, 6, 32, R)
